@@ -311,9 +311,10 @@ func WorkerMain() {
 			if _, ok := sh.try(orig); ok {
 				min := sh.run()
 				rf.OrigTape = &orig
-				rf.Tape = min
 				rf.ShrinkRun = sh.used
-				if lastV != nil {
+				// the decoded schedule and detail reported are those of the minimised tape itself
+				if canon, ok := sh.try(min); ok {
+					rf.Tape = canon
 					rf.Violation, rf.Log = lastV, lastLog
 				}
 			} else {
